@@ -97,14 +97,39 @@ func c14Decl(fields []string, withEvent bool) *refmodel.Decl {
 		d.Columns = append(d.Columns, refmodel.Column{Name: "f", Type: "bytea"}, refmodel.Column{Name: "v", Type: "numeric"})
 	}
 	for _, f := range fields {
-		d.Block = append(d.Block, refmodel.BlockField{Name: f, Column: f})
-		d.Columns = append(d.Columns, refmodel.Column{Name: f, Type: gen.FieldColType[f]})
+		col := f
+		if c14Rename && !c14Identity[f] {
+			// a field may be stored under any column name: what is fetched depends on the field
+			col = "x_" + f
+		}
+		d.Block = append(d.Block, refmodel.BlockField{Name: f, Column: col})
+		d.Columns = append(d.Columns, refmodel.Column{Name: col, Type: gen.FieldColType[f]})
 	}
 	return d
 }
 
+// c14Rename: store every non-identity field under a column of another name.
+var c14Rename bool
+
+var c14Identity = map[string]bool{"ig_name": true, "src_name": true, "block_num": true, "tx_idx": true, "log_idx": true, "abi_idx": true, "trace_action_idx": true}
+
 // c14Run indexes the distinct chain with the declaration and compares.
 func c14Run(fields []string, withEvent bool) string {
+	for _, rename := range []bool{false, true} {
+		c14Rename = rename
+		if v := c14RunOnce(fields, withEvent); v != "" {
+			c14Rename = false
+			if rename {
+				return "(fields stored under columns named x_<field>) " + v
+			}
+			return v
+		}
+	}
+	c14Rename = false
+	return ""
+}
+
+func c14RunOnce(fields []string, withEvent bool) string {
 	node := sim.NewNode(distinctChain())
 	d := c14Decl(fields, withEvent)
 	w, err := NewWorld(quietT{}, []*SourceCfg{{Name: "src1", ChainID: 77, Batch: 2, Conc: 1, Node: node}}, []*refmodel.Decl{d})
